@@ -588,6 +588,7 @@ func (r *stateResolverV2) calculateFullAuthChainAndConflictedSubgraph(
 		// We are only interested in doing the book-keeping for 'visiting' for conflicted events.
 		originConflicted bool
 	}
+	stateSetEvents := eventMapFromEvents(stateSet)
 	initial := make([]pduVisitors, len(stateSet))
 	for i, p := range stateSet {
 		initial[i] = pduVisitors{
@@ -616,7 +617,13 @@ func (r *stateResolverV2) calculateFullAuthChainAndConflictedSubgraph(
 			conflictedSubgraphEventIDs := append(slices.Clone(curr.visiting), curr.pdu.EventID())
 			fmt.Printf("found conflicted subgraph %v\n", conflictedSubgraphEventIDs)
 			for _, eventID := range conflictedSubgraphEventIDs {
-				conflictedSubgraph.Insert(r.authEventMap[eventID])
+				// The start of a path is an event of the state set, which need not be
+				// anybody's auth event and so need not be among the provided auth events.
+				if ev, ok := r.authEventMap[eventID]; ok {
+					conflictedSubgraph.Insert(ev)
+				} else if ev, ok := stateSetEvents[eventID]; ok {
+					conflictedSubgraph.Insert(ev)
+				}
 			}
 		}
 
